@@ -1,3 +1,3 @@
 SPECIFICATION Spec
-INVARIANTS C11_ClearOnlySelfClean C11_ResetupInstead C11_CleanReleased C11_Marked C11_Excluded
+INVARIANTS C11_ClearOnlySelfClean C11_ResetupInstead C11_CleanReleased C11_Marked C11_Excluded Conf_Decision C11_DecisionClearOnlyClean C11_DecisionAheadResetup
 CHECK_DEADLOCK FALSE
